@@ -88,6 +88,25 @@ theorem resolve_sorted (cfg : Cfg) (root : Node) (pats : List Str) (fs : Seen)
     subst h
     exact sortSeen_sorted seen (nodup_resolveLoop cfg root [] seen pats hl (by simp [keys]))
 
+/-- a package directory with a hidden file, an underscore file, a VCS directory, a nested module and a fifo -/
+def exTree : Node :=
+  .dir (.cons (lit ['d']) (.dir
+      (.cons (lit ['.', 'h']) (.file [1])
+      (.cons (lit ['_', 'u']) (.file [2])
+      (.cons (lit ['k']) (.file [3])
+      (.cons (lit ['.', 'g', 'i', 't']) (.dir (.cons (lit ['c']) (.file [4]) .nil))
+      (.cons (lit ['m']) (.dir (.cons sGoMod (.file []) (.cons (lit ['q']) (.file [5]) .nil)))
+      .nil))))))
+    (.cons (lit ['f']) .irregular .nil))
+
+/-- the hypothesis `resolve … = .ok fs` of the three theorems above is satisfiable: `//go:embed d all:d` succeeds -/
+example : ∃ fs, resolve ⟨true⟩ exTree [lit ['d'], lit ['a', 'l', 'l', ':', 'd']] = .ok fs := by
+  rw [resolve_ok_iff_loop]
+  exact ⟨[(lit ['d', '/', 'k'], [3]), (lit ['d', '/', '.', 'h'], [1]), (lit ['d', '/', '_', 'u'], [2])], by decide⟩
+
+/-- … and the rejecting side as well: the fifo is refused -/
+example : resolveLoop ⟨true⟩ exTree [] [lit ['f']] = .error .irregular := by decide
+
 /-! ## `ResolvePatterns` as it stands -/
 
 /-- the full statement for the current code: it rejects exactly what cmd/go rejects -/
@@ -176,6 +195,11 @@ theorem buildFSEntries_closed (files : Seen)
 example : CleanElems [lit ['a', ' ', 'b'], lit ['.', 'c'], lit ['d', '.', 't', 'x', 't']] := by
   refine ⟨by simp, ?_⟩
   decide
+
+/-- the hypotheses of `buildFSEntries_closed` are satisfiable: the table for the single file `a/b/c` holds `a/b/c` -/
+example : joinSlash [lit ['a'], lit ['b'], lit ['c']] ∈
+    (buildFSEntries [(joinSlash [lit ['a'], lit ['b'], lit ['c']], [1])]).map (·.1) :=
+  (keys_buildFSEntries _ _).2 ⟨(joinSlash [lit ['a'], lit ['b'], lit ['c']], [1]), List.mem_singleton.2 rfl, Or.inl rfl⟩
 
 /-- **Nothing else**: every entry is an input file or an ancestor directory of one; every input file is there. -/
 theorem buildFSEntries_exact (files : Seen) (x : Str) :
